@@ -210,7 +210,7 @@ func (in *Interp) tpanic(kind, msg string) {
 
 const maxCallDepth = 3000
 
-var stdInitAllowed = map[string]bool{"unicode/utf8": true}
+var stdInitAllowed = map[string]bool{"unicode/utf8": true, "math/bits": true}
 
 var sentinelErrors = map[string]string{
 	"io/fs.SkipDir": "skip this directory", "io/fs.SkipAll": "skip everything and stop the walk",
